@@ -72,6 +72,11 @@ pub enum Op {
     ForeignLock { hold_us: i64 },
     /// the client retries its last upload verbatim (same ids, byte-identical body), as after a lost response
     Resend,
+    /// Library only, model-free: a client created directly through the storage trait with a
+    /// NON-NIL latest version id and no versions (a state no request produces, but one the storage
+    /// API allows and the core's own tests use); then GetChildVersion and AddVersion are compared
+    /// with each other for every class of parent, as C08 states the equivalence
+    PresetProbe { k: u8 },
 }
 
 impl Op {
@@ -90,6 +95,7 @@ impl Op {
             Op::Reconfig { days, versions } => format!("restart with targets days={days} versions={versions}"),
             Op::ForeignLock { hold_us } => format!("foreign writer holds the lock for {hold_us}us"),
             Op::Resend => "resend the last upload verbatim".into(),
+            Op::PresetProbe { k } => format!("storage-created client #{k} with a non-nil latest id: get-child vs add-version"),
         }
     }
 }
